@@ -69,7 +69,7 @@ def gen_scenario(r, tier):
 
 
 def gen(r, tier):
-    n = {"quick": 100, "search": 400, "thorough": 1200}[tier]
+    n = {"quick": 60, "search": 250, "thorough": 800}[tier]
     return [gen_scenario(r, tier) for _ in range(n)]
 
 
@@ -94,6 +94,10 @@ def corpus():
         "P 0 ; T 0 t ; PUB 0 ; SUB 0 ; W 0 0 rel=1 hist=2 mbt=100000000 dur=1 ; w 0 1 10 ; w 0 1 10 ; w 0 1 10 ; w 0 2 10 ; "
         "mark ; R 0 0 rel=1 dur=1 ; net ; adv 10000000 ; net ; hist 0",
         hdr + "W 0 0 rel=0 hist=1 mbt=100000000 dur=1 ; R 0 0 rel=0 ; net ; ms 0 ; w 0 1 10 ; w 0 1 10 ; w 0 1 10 ; net",
+        # the reader that never acknowledged is deleted: its RTPS proxy stays in the writer (stale proxy, D19 /
+        # C16), so the writer keeps waiting for it: the parked write still times out, later ones are parked again
+        hdr + "W 0 0 rel=1 hist=1 mbt=100000000 dur=1 ; R 0 0 rel=1 ; R 0 0 rel=1 ; net ; ms 0 ; fault drop ACKNACK -1 -1 -1 ; "
+              "w 0 1 10 ; w 0 1 10 ; net ; delR 1 ; net ; adv 10000000 ; clr ; net ; adv 300000000 ; net ; w 0 1 10 ; adv 150000000 ; net",
         # KEEP_LAST(0) is accepted by the QoS validation and never replaces anything (finding C27-depth-zero-unbounded)
         hdr + "W 0 0 rel=1 hist=-1 mbt=100000000 dur=1 ; R 0 0 rel=1 ; net ; ms 0 ; w 0 1 10 ; w 0 1 10 ; w 0 1 10 ; net" + end,
     ]
